@@ -86,7 +86,9 @@ def run(ctx):
                              'if a; then b; fi', 'for i in 1 2; do a; done', 'a | b', '! a', 'a && b', '{ a; }', '(a)', 'x=1', 'a >b 2>&1']
                  if accepted(bl, s)]
         # (a comment runs to its newline whatever it contains: a backslash at its end is no continuation)
-        seps = ['\n', '\n\n', ' \n', '\n# c\n', '\n \n\t', '\n#\n\n', ' # x\n', ' #\\\n', '\n# c \\\n', ' # `x $(\\\n', '\n#\\\\\n']
+        # carriage returns where they are ordinary characters: inside quotes, comments, here-document bodies
+        pool += [s for s in ['echo "x\r\ny"', "a 'b\r\nc'", 'a # c\r', 'a <<E\nx\r\nE', 'a "\r"'] if accepted(bl, s)]
+        seps = ['\n', '\n\n', ' \n', '\n# c\n', '\n \n\t', '\n#\n\n', ' # x\n', ' #\\\n', '\n# c \\\n', ' # `x $(\\\n', '\n#\\\\\n', '\n# c\r\n', ' #\r\n', '\n#\r\n\n']
         for _ in range(1200 if quick else 20000):
             a, b = rng.choice(pool), rng.choice(pool)
             sep = rng.choice(seps)
